@@ -206,10 +206,43 @@ def import_rule(ctx, P):
     ctx.check(r, bool(nf) and all(paths.must_pass(f, head, lambda e, n_=s_["node"]: e == n_) for s_ in nf[:1]), "cmn_set_repr:nframe", f.where(f.root), "the frame count is not set on every path of the import")
 
 
+def lazy_rule(ctx, P):
+    """fields classified `lazy` in the table (noise tracker): the claim is that the first frame of an utterance
+    re-initialises them.  Decided per field of noise_stats_s that is an array: either it is stored in the block
+    guarded by `undefined` (set by the start path), or the frame's first access to it outside that block is a
+    plain assignment whose right-hand side does not read it."""
+    r = ctx.rule("LAZY.G5-first-frame", "every array of the noise tracker that carries values from frame to frame (read, or updated from its own previous value, before it is assigned in fe_remove_noise) is assigned in the first-frame block guarded by `undefined`: nothing of the previous utterance's last frame survives fe_start", floor=4)
+    f = P.fn("fe_remove_noise", "fe_noise.c")
+    ctx.touch(f)
+    rec = P.records.get("noise_stats_s")
+    if rec is None:
+        raise AnalysisIncomplete("record noise_stats_s not found")
+    arrays = [x[0] for x in rec["fields"] if "*" in x[2]]
+    obj = "noise_stats"
+
+    def in_init(n):
+        return paths.guarded(f, n, lambda fn, cc, pol: paths.cond_atoms(fn, cc, pol, subst=False) == ("%s->undefined" % obj, True))
+    for fld in arrays:
+        path = "%s->%s" % (obj, fld)
+        refs = [i for i in f.walk() if f.k(i) == "Member" and f.canon(i, subst=False) == path]
+        if not refs:
+            continue
+        init_store = [s for s in paths.stores(f) if s["path"].startswith(path + "[") and s["op"] == "=" and in_init(s["node"])]
+        outside = [i for i in refs if not in_init(i)]
+        carried = False
+        if outside:
+            first = min(outside, key=lambda i: (f.nodes[i].get("l") or 0, i))
+            st = [s for s in paths.stores(f) if s["op"] == "=" and s["rhs"] is not None and first in set(f.walk(s["lhs"]))]
+            carried = not st or any(f.k(j) == "Member" and f.canon(j, subst=False) == path for j in f.walk(st[0]["rhs"]))
+        if carried or init_store:
+            ctx.check(r, bool(init_store) or not carried, key(f, "first-frame:" + fld), f.where(refs[0]), "`%s[]` carries values from one frame to the next (it is read, or updated from its own previous value, before anything is assigned to it) but the first-frame block under `undefined` does not assign it: after fe_start it still holds the last frame of the previous utterance" % path)
+
+
 def run(ctx):
     P = ctx.P
     P.load_all()
     import_rule(ctx, P)
+    lazy_rule(ctx, P)
 
     # ---- G1 ------------------------------------------------------------------------------------------
     g1 = ctx.rule("CENSUS.G1-static-storage", "every object of static storage (file scope or function-static) that is not const is never written, or is in the reasoned table (logging configuration allowed; random-number and frequency-warping state are known findings); a new writable global or function-static is a violation", floor=30)
